@@ -72,7 +72,7 @@ FUNCTIONS = {
                    "bipartite_values": "const:(0, 1)", "include_stoich": "const:True", "include_role": "const:True",
                    "include_isolated_species": "const:True", "integer_ids": "const:False", "include_edge_id_attr": "bool",
                    "include_mol": "const:False"},
-        "vars": {"species_map": "dict[str,any]"},
+        "vars": {"species_map": "dict[str,any]", "seen": "set[str]"},
         "returns": "obj:DiGraph",
         "requires": ["wf(H)"],
         "modifies": [],
@@ -85,9 +85,12 @@ FUNCTIONS = {
                         "forall(G.nodes, lambda n: exists(species_map, lambda s: same(n, sp(s))))",
                         "forall(('any', 'any'), lambda u, v: not G.has_edge(u, v))"]},
             2: {"seq_as": "eids", "modifies": ["G.nodes", "G.nattr", "G.adj", "G.eattr"],
+                "ghost_init": ["seen = set()"], "ghost_step": ["seen.add(eid)"],
                 "inv": ["map_ok(species_map, H)",
-                        "view_nodes(G, H, {eids[j] for j in range(done)}, include_edge_id_attr)",
-                        "view_arcs(G, H, {eids[j] for j in range(done)})"]},
+                        "forall('str', lambda e: (e in seen) == exists(range(done), lambda j: eids[j] == e))",
+                        "forall(seen, lambda e: e in H.edges)",
+                        "view_nodes(G, H, seen, include_edge_id_attr)",
+                        "view_arcs(G, H, seen)"]},
             3: {"modifies": ["G.nodes", "G.nattr", "G.adj", "G.eattr"],
                 "inv": ["map_ok(species_map, H)", "same(rnode, rx(eid))",
                         # relative to the start of this reaction's iteration: one new node, reactant arcs of the species done
